@@ -157,6 +157,8 @@ def build_world(scn, sched=None, observe=None, faults=True):
     tty = scn.get("tty", [1, 1])
     w = proto.new_world("btcdeb", argv, tty=(tty[0], tty[1]))
     w["env"] = dict(scn.get("env", {}))
+    if scn.get("fdkind"):
+        w["fdkind"] = scn["fdkind"]       # what the non-terminal ends are (pipe, regular file, character device, socket)
     w["files"] = files
     if stdin_script and scn.get("script") is not None:
         w["stdin"]["data"] = "0x" + scn["script"] + scn.get("stdin_eol", "\n")
